@@ -60,7 +60,7 @@ def warm():
 
 def config(tier):
     if tier == "thorough":
-        return {"budget_s": 700, "run_timeout": 180, "selftest": 32}
+        return {"budget_s": 700, "run_timeout": 180, "selftest": 32, "max_runs": 60000}  # in-process runs leak ~0.5 MB each (see xformsim.end_of_run)
     return {"budget_s": 45, "run_timeout": 180, "selftest": 16}
 
 
@@ -755,6 +755,13 @@ class Watchdog:
 
 
 def execute(sim, plan):
+    try:
+        _execute(sim, plan)
+    finally:
+        xformsim.end_of_run()
+
+
+def _execute(sim, plan):
     from breezy import transform as _t
 
     warm()
@@ -782,6 +789,7 @@ def execute(sim, plan):
     malformed = None
     crashed = None
     preview_error = None
+    apply_error = None
     moved = {}
     moved_from = {}
     reversioned = set()
@@ -824,8 +832,10 @@ def execute(sim, plan):
             stage = "apply"
             try:
                 tt.apply()
-            except _t.MalformedTransform as e:
-                sim.fail("resolved_applies", ["resolved_applies", "none", "apply:MalformedTransform"], f"resolve_conflicts returned a conflict-free transform but apply() reports {e}")
+            except Hang:
+                raise
+            except Exception as e:  # noqa: BLE001 - "a conflict-free transform that applies cleanly"
+                apply_error = e
         dog.disarm()
     except Hang:
         sim.fail("liveness", ["liveness", "none", stage], f"{stage} did not finish within {HANG_S} s")
@@ -837,6 +847,19 @@ def execute(sim, plan):
             osseam.deactivate(sim)
     sim.nontrivial = done >= 3 and len(seen) >= 1
     sim.state_seen((tuple(sorted(set(seen))), malformed is not None))
+    if apply_error is not None:
+        e = apply_error
+        sim.probe("apply_failed")
+        sim.event("outcome", "apply-failed", type(e).__name__)
+        st = xformsim.tree_state(root)
+        partial = "" if st == s0 else ":tree-changed"
+        sim.fail(
+            "resolved_applies",
+            ["resolved_applies", "none", f"apply:{type(e).__name__}{partial}"],
+            f"resolve_conflicts returned a conflict-free transform but apply() raised {type(e).__name__}: {str(e).replace(base, '<scratch>')[:300]}"
+            + (" and left the tree partially applied: " + xformsim.diff_maps(st["disk"], s0["disk"]) + " | " + xformsim.diff_maps(st["meta"], s0["meta"]) if partial else " (tree untouched)")
+            + f" [conflicts resolved: {sorted(set(seen))}]",
+        )
     if preview_error is not None:
         fn, e = preview_error
         sim.probe("preview_crash")
